@@ -93,11 +93,16 @@ type Task struct {
 	BlockNote  string
 }
 
+// State: plain (norace) access. The hand-off channel and synctest.Wait order
+// these accesses in reality; the race detector must not see an atomic here, or
+// the scheduler would acquire every task's clock at every step and relay it.
+//
 //go:norace
-func (t *Task) State() State { return State(atomic.LoadInt32((*int32)(&t.state))) }
+//go:norace
+func (t *Task) State() State { return t.state }
 
 //go:norace
-func (t *Task) setState(s State) { atomic.StoreInt32((*int32)(&t.state), int32(s)) }
+func (t *Task) setState(s State) { t.state = s }
 
 // Chooser takes every nondeterministic decision of a run.
 type Chooser interface {
@@ -149,6 +154,8 @@ type Kernel struct {
 	Log         []string
 	VerifyGoid  bool
 	Foreign     int
+
+	groupSync [64]int32 // happens-before chain per serial group (one logical goroutine)
 
 	// KeyHint, when non-zero, is the Key of the next task the harness spawns.
 	KeyHint  uint64
@@ -293,6 +300,14 @@ func (k *Kernel) taskMain(t *Task, fn func()) {
 		t.setState(Done)
 	}()
 	k.park(t)
+	if t.Group > 0 && t.Group < len(k.groupSync) {
+		// tasks of one serial group model ONE goroutine of the real program
+		HBAcquire(&k.groupSync[t.Group])
+		defer HBRelease(&k.groupSync[t.Group])
+	}
+	if tm, ok := t.Tag.(*Timer); ok {
+		HBAcquire(&tm.hb) // a timer callback happens after the call that armed it
+	}
 	fn()
 }
 
@@ -452,8 +467,11 @@ func (k *Kernel) release(t *Task) {
 	t.setState(Running)
 	raceOff()
 	t.wake <- struct{}{}
-	raceOn()
+	// synctest.Wait acquires (race-detector wise) everything the now blocked
+	// goroutines did; with that in its clock the scheduler would pass it on to
+	// every task it spawns later and hide races between them.
 	synctest.Wait()
+	raceOn()
 	k.running = nil
 	st := t.State()
 	if st == Running {
@@ -573,8 +591,8 @@ func (k *Kernel) Shutdown() {
 			t.setState(Running)
 			raceOff()
 			t.wake <- struct{}{}
-			raceOn()
 			synctest.Wait()
+			raceOn()
 			if t.State() == Running {
 				t.setState(BlockedReal)
 			}
@@ -673,7 +691,23 @@ func lockName(l any) string {
 }
 
 //go:norace
-func synctestWait() { synctest.Wait() }
+func synctestWait() {
+	raceOff()
+	synctest.Wait()
+	raceOn()
+}
+
+// NoSync runs f with race-detector synchronisation events ignored on the
+// calling goroutine: the scheduler uses it around real primitives it touches on
+// behalf of the plan (context cancellation) so that it never becomes a
+// happens-before relay between tasks.
+//
+//go:norace
+func NoSync(f func()) {
+	raceOff()
+	f()
+	raceOn()
+}
 
 // IsAbort reports whether a recovered panic value is the kernel's abort
 // sentinel (which harness recover() sites must re-panic).
